@@ -390,7 +390,7 @@ def stored_values_stream(ctx, rng, count, given=None):
     return bad
 
 
-def atom_roundtrip_stream(ctx, rng, count):
+def atom_roundtrip_stream(ctx, rng, count, given=None):
     """Problems whose constraints contain nonlinear atoms (their epigraph Variables are created while compiling): every Variable that owns a
     column is listed and valued after the FIRST solve, and the Problem survives a pickle round trip followed by a recompile"""
     import pickle
@@ -398,22 +398,27 @@ def atom_roundtrip_stream(ctx, rng, count):
     import sageopt.coniclifts as cl
     from sageopt.coniclifts.operators.abs import abs as cl_abs
     bad = []
-    for t in range(count):
-        n = rng.randint(2, 3)
+    for t in range(count if given is None else len(given)):
+        if given is not None:
+            g_ = given[t]
+            n, a, kind, cvec, bnd = g_['n'], np.array(g_['a'], dtype=float), g_['kind'], np.array(g_['c'], dtype=float), g_['bounds']
+        else:
+            n = rng.randint(2, 3)
+            a = np.array([float(rng.randint(-2, 2)) for _ in range(n)])
+            kind = rng.choice(['norm', 'exp', 'abs', 'mixed'])
+            cvec = np.array([float(rng.choice([1, -1, 2])) for _ in range(n)])
+            bnd = [float(rng.choice([1, 2, 3])), float(rng.choice([3, 5])), float(rng.choice([1, 2]))]
         x = cl.Variable(shape=(n,), name='ar_x%d' % t)
-        a = np.array([float(rng.randint(-2, 2)) for _ in range(n)])
-        kind = rng.choice(['norm', 'exp', 'abs', 'mixed'])
         cons = []
         if kind in ('norm', 'mixed'):
-            cons.append(cl.vector2norm(x - a) <= float(rng.choice([1, 2, 3])))
+            cons.append(cl.vector2norm(x - a) <= bnd[0])
         if kind in ('exp', 'mixed'):
-            cons.append(cl.weighted_sum_exp(np.ones(n), x) <= float(rng.choice([3, 5])))
+            cons.append(cl.weighted_sum_exp(np.ones(n), x) <= bnd[1])
             cons.append(x >= -4)
         if kind == 'abs':
-            cons.append(cl.sum(cl_abs(x - a)) <= float(rng.choice([1, 2])))
-        cvec = np.array([float(rng.choice([1, -1, 2])) for _ in range(n)])
-        rep = {'kind': kind, 'n': n, 'a': a.tolist(), 'c': cvec.tolist()}
-        ctx.case(dict(rep, stream='atom-roundtrip'), nontrivial=True)
+            cons.append(cl.sum(cl_abs(x - a)) <= bnd[2])
+        rep = {'kind': kind, 'n': n, 'a': a.tolist(), 'c': cvec.tolist(), 'bounds': bnd, 'stream': 'atom-roundtrip'}
+        ctx.case(rep, nontrivial=True)
         ctx.count('stream:atom-roundtrip')
         try:
             prob = cl.Problem(cl.MAX, cvec @ x, cons)
@@ -586,6 +591,9 @@ def recheck(r):
     if 'bseed' in r:
         out = builder_names(common.RecCtx(), random.Random(r['bseed']), r.get('bcount', 3))
         return ('names: ' + out[0][0]) if out else None
+    if r.get('stream') == 'atom-roundtrip':
+        out = atom_roundtrip_stream(common.RecCtx(), random.Random(0), 0, given=[r])
+        return ('atoms: ' + out[0][0]) if out else None
     if 'mode' in r and 'lo' in r:
         out = stored_values_stream(common.RecCtx(), random.Random(0), 0, given=[r])
         return ('stored values: ' + out[0][0]) if out else None
